@@ -93,11 +93,20 @@ class AddrTie(Tie):
 
 def shrink(case):
     ops = split_ops(case)
-    # drop a suffix, then single operations
-    for n in range(1, len(ops)):
-        yield join_ops(ops[:n])
-    for i in range(len(ops)):
-        yield join_ops(ops[:i] + ops[i + 1:])
+    n = len(ops)
+    # big cuts first (every candidate costs a driver start): halve the script, then drop quarters, then single operations
+    if n > 1:
+        yield join_ops(ops[:n // 2])
+        yield join_ops(ops[:(3 * n) // 4])
+        yield join_ops(ops[:n - 1])
+    k = max(1, n // 4)
+    while k >= 1:
+        for i in range(0, n, k):
+            if i + k <= n and n - k >= 1:
+                yield join_ops(ops[:i] + ops[i + k:])
+        if k == 1:
+            break
+        k //= 2
 
 
 def gen(rng, tier):
